@@ -219,7 +219,7 @@ def deinv_content(triples, model, variables, noop=False):
     """Triples up to the model's single deinversion (edges only)."""
     out = []
     for s, r, t in triples:
-        if (not noop and r.endswith('-of') and not model._has_role(r)
+        if (not noop and r.endswith('-of') and not specs.role_defined(model, r)
                 and t in variables and r != ':instance'):
             out.append((written(t), r[:-3], written(s)))
         else:
@@ -250,7 +250,7 @@ def c03_encode_decode(args):
     for s, r, t in g.triples:
         if r != ':instance' and not gens.canonical_inversion(model, r):
             return 'SKIP'
-        if r.endswith('-of') and not model._has_role(r) and r != ':instance' and s == t:
+        if r.endswith('-of') and not specs.role_defined(model, r) and r != ':instance' and s == t:
             return 'SKIP'
         if t not in vs and isinstance(t, str) and t in vs:
             return 'SKIP'
@@ -471,7 +471,7 @@ def ref_key(kname, model):
     if kname == 'alphanumeric':
         return ref_alnum
     if kname == 'canonical':
-        return lambda r: (r.endswith('-of') and not model._has_role(r), ref_alnum(r))
+        return lambda r: (r.endswith('-of') and not specs.role_defined(model, r), ref_alnum(r))
     return None
 
 
@@ -705,7 +705,7 @@ def contexts_from_tree(node, model):
                 hc = True
                 res.append((v, None, False))
                 continue
-            inv = role.endswith('-of') and not model._has_role(role)
+            inv = role.endswith('-of') and not specs.role_defined(model, role)
             if isinstance(tg, tuple):
                 res.append((v, tg[0], inv))
                 res.extend(rd(tg))
@@ -903,7 +903,7 @@ def c12_cls(args, detail):
     vs = {t[0] for t in ts}
     prog = args['prog']
     # N8: reify_attributes on an attribute whose role is inverted
-    if 'A' in prog and any(r.endswith('-of') and not model._has_role(r) and t not in vs
+    if 'A' in prog and any(r.endswith('-of') and not specs.role_defined(model, r) and t not in vs
                            for s, r, t in ts if r != ':instance'):
         return 'N8'
     # F4: ambiguous dereification table (include-91: :subset/:superset)
@@ -926,7 +926,7 @@ def c11_inverse(args):
     for s, r, t in g.triples:
         if t not in vs0 and written(t) in vs0:
             return 'SKIP'
-        if r.endswith('-of') and not model._has_role(r) and t not in vs0 and r != ':instance':
+        if r.endswith('-of') and not specs.role_defined(model, r) and t not in vs0 and r != ':instance':
             return 'SKIP'   # inverted attribute: no reading as an edge
     # domain: no collapsible reified node to begin with; unambiguous table
     try:
